@@ -33,6 +33,8 @@ func renumber(t *tree.Tree) {
 func doSeq(c *core.Ctx, steps []string, base *core.N) {
 	pre := []string{strings.Join(steps, ";"), base.Dump()}
 	t := mustBuild(base)
+	pending(c, "C07.seq", append(pre, "", "", "", "exit:killed", "")...)
+	defer done()
 	var before *core.N
 	var stored strings.Builder
 	var draws []int
@@ -145,8 +147,25 @@ func seqCase(c *core.Ctx) {
 		steps = append(steps, "reinit")
 	}
 	n := 2 + c.G.Intn(3)
+	// round 7: a quarter of the sequences are histories of collapses by length / support only, with ONE
+	// --root for all steps (the hypotheses of collapse_then_collapse; the driver re-runs the whole history
+	// in the model, tags history / hyp-history)
+	pure := c.G.Chance(0.25)
+	pureRoot := b2s(c.G.Chance(0.5))
 	for i := 0; i < n; i++ {
 		k := c.G.Intn(5)
+		if pure {
+			k = 1 + c.G.Intn(2)
+			var st string
+			if k == 1 {
+				st = "len:" + core.Rat(float64(c.G.Intn(16))/8) + ":" + pureRoot + ":" + b2s(c.G.Chance(0.3))
+			} else {
+				st = "sup:" + core.Rat(float64(c.G.Intn(17))/16) + ":" + pureRoot
+			}
+			steps = append(steps, st)
+			doSeq(c, append([]string{}, steps...), base)
+			continue
+		}
 		if i == n-1 && c.G.Chance(0.6) {
 			k = 3 // most sequences end with the library collapse by depth
 		}
